@@ -166,6 +166,57 @@ G_EDGE = [("probs", [Fr(1), Fr(0)]), ("probs", [Fr(0), Fr(1)]), ("probs", [1 - _
           ("logits", [Fr(20), Fr(-20), Fr(0)])]
 
 
+TINY = {"float64": 2.2250738585072014e-308, "float32": 1.1754943508222875e-38}
+
+
+def _sigmoid(l):
+    if l >= 0:
+        return 1.0 / (1.0 + math.exp(-l))
+    e = math.exp(l)
+    return e / (1.0 + e)
+
+
+def _clampf(x, eps):
+    return min(max(x, eps), 1.0 - eps)
+
+
+def expected_lb(par, value, dtn):
+    """what `probs` and `logits` of LogisticBernoulli(par=value) denote (python floats, independent of
+    the library): probs-construction -> logits = logit(clamp_probs(p)); logits-construction -> probs =
+    sigmoid(logits).  `value` as the dtype holds it."""
+    if par == "probs":
+        pc = _clampf(value, EPS[dtn])
+        return value, math.log(pc) - math.log1p(-pc)
+    return _sigmoid(value), value
+
+
+def expected_g(par, row, dtn):
+    """the same for one row (class axis) of GumbelOneHotCategorical: probs-construction -> probs =
+    row / sum(row), logits = log(clamp_probs(probs)); logits-construction -> logits = row - logsumexp(row),
+    probs = softmax(row).  -> (probs, logits)"""
+    if par == "probs":
+        tot = sum(Fr(x) for x in row)
+        ps = [float(Fr(x) / tot) for x in row]
+        return ps, [math.log(_clampf(x, EPS[dtn])) for x in ps]
+    m = max(row)
+    lse = m + math.log(sum(math.exp(x - m) for x in row))
+    ls = [x - lse for x in row]
+    return [math.exp(x) for x in ls], ls
+
+
+def pclose(a, b, dtn, kind):
+    """implementation value `a` (exact-rational string or special) against the oracle float `b`:
+    probabilities to a few ulp RELATIVE (sigmoid / softmax / division are accurate to that; a dtype's
+    underflow threshold as the floor), logits to a few ulp of 1 + |logit| (a difference of two logs)"""
+    if b in (float("inf"), float("-inf")) or b != b or a in SPECIALS:
+        return a == fs(b)
+    a = float(F(a))
+    if kind == "probs":
+        # exp of a log-probability known to a few ulp of 1 + |log p|
+        return abs(a - b) <= 64 * EPS[dtn] * abs(b) * (1 + (abs(math.log(b)) if b > 0 else 0)) + TINY[dtn]
+    return abs(a - b) <= 64 * EPS[dtn] * (1 + abs(b))
+
+
 def _table(rng, M):
     return [fs(_dy(rng, -3, 3, 4)) for _ in range(M)]
 
@@ -598,16 +649,19 @@ class C19(PropertyCheck):
             out.append(f"{tag}: gradient sizes differ {len(a[1])} vs {len(b[1])}")
         return out
 
-    def _points_json(self, spec, f, c=None, lv=None):
+    def _points_json(self, spec, f, c=None, lv=None, only=None):
+        """`only`: indices of the points that make up the sample space (default: all)"""
         P, dP = fam.exact_probs(spec)
         pts = []
-        for i in range(len(P)):
+        for i in (range(len(P)) if only is None else only):
             d = {"p": fs(P[i]), "dp": [fs(x) for x in dP[i]], "f": f[i]}
             if c is not None:
                 d["c"] = c[i]
             if lv is not None:
                 d["lv"] = lv[i]
             pts.append(d)
+        if only is not None:
+            P, dP = [P[i] for i in only], [dP[i] for i in only]
         return pts, P, dP
 
     # ---------------------------------------------------------------- direct
@@ -625,7 +679,9 @@ class C19(PropertyCheck):
             cv_mean = (dist.log_prob(torch.stack(pts)).exp() * ct).sum()
             if case["cv_mean_detached"]:
                 cv_mean = cv_mean.detach()
-        per = self._run_tuples(dist, [param], pts, case["N"],
+        # the sample space is the support: a class of probability zero (logit -inf) is never drawn
+        spts = [pts[i] for i in fam.support(sp)]
+        per = self._run_tuples(dist, [param], spts, case["N"],
                                lambda: DirectEstimator(dist, func, case["N"], cv, cv_mean))
         lps = dist.log_prob(torch.stack(pts)).detach()
         return {"per_tuple": per, "lv": [fs(x) for x in lps.tolist()],
@@ -636,7 +692,7 @@ class C19(PropertyCheck):
         sp = case["dist"]
         dist, _, pts = fam.build(sp, False)
         lv = [fs(x) for x in dist.log_prob(torch.stack(pts)).tolist()]
-        points, _, _ = self._points_json(sp, case["f"], case["c"], lv)
+        points, _, _ = self._points_json(sp, case["f"], case["c"], lv, fam.support(sp))
         return {"op": "c19.direct", "case": {
             "N": case["N"], "K": fam.n_params(sp), "use_cv": case["c"] is not None,
             "cv_mean_detached": bool(case["cv_mean_detached"]), "points": points}}
@@ -652,6 +708,7 @@ class C19(PropertyCheck):
 
     def _pred_direct(self, case, impl, model):
         P, _ = fam.exact_probs(case["dist"])
+        P = [P[i] for i in fam.support(case["dist"])]
         fails = []
         if not close(impl["psum"], 1):
             fails.append((f"probabilities over the support sum to {float(F(impl['psum']))}", None))
@@ -681,6 +738,7 @@ class C19(PropertyCheck):
             dens, pparam, _ = fam.build(case["density"])
             params = [pparam, qparam]
         func = fam.table_func(sp, case["f"])
+        pts = [pts[i] for i in fam.support(sp)]        # the proposal's support
         per = self._run_tuples(dist, params, pts, case["N"],
                                lambda: ImportanceSamplingEstimator(dist, func, case["N"], dens))
         return {"per_tuple": per}
@@ -691,7 +749,7 @@ class C19(PropertyCheck):
         sd = sp if case["density"] == "same" else case["density"]
         P, dP = fam.exact_probs(sd)
         pts = [{"q": fs(Q[i]), "dq": fs(dQ[i][0]), "p": fs(P[i]), "dp": [fs(x) for x in dP[i]],
-                "f": case["f"][i]} for i in range(len(Q))]
+                "f": case["f"][i]} for i in fam.support(sp)]
         return {"op": "c19.is", "case": {"N": case["N"], "K": fam.n_params(sd), "points": pts}}
 
     def _split_is(self, case, per):
@@ -714,10 +772,18 @@ class C19(PropertyCheck):
 
     def _pred_is(self, case, impl, model):
         Q, _ = fam.exact_probs(case["proposal"])
+        Q = [Q[i] for i in fam.support(case["proposal"])]
         a, extra = self._split_is(case, impl["per_tuple"])
         v, g = self._wmean(a, Q, case["N"])
         fails = []
         ev, eg = F(model["exact"][0]), [F(x) for x in model["exact"][1]]
+        # the oracle over the WHOLE space of the density (the proposal dominates it by construction)
+        sd = case["proposal"] if case["density"] == "same" else case["density"]
+        Pd, _ = fam.exact_probs(sd)
+        ev_all = sum(p * F(x) for p, x in zip(Pd, case["f"]))
+        if ev_all != ev:
+            fails.append((f"ImportanceSamplingEstimator: oracle over the proposal's support {float(ev)!r} != E_P f "
+                          f"over the whole space {float(ev_all)!r} (proposal does not dominate)", None))
         if not close(v, ev):
             fails.append((f"ImportanceSamplingEstimator: mean value {float(v)!r} != E_P f = {float(ev)!r}", None))
         for j, (x, y) in enumerate(zip(g, eg)):
@@ -848,8 +914,11 @@ class C19(PropertyCheck):
 
     def _req_imh(self, case):
         _, _, pts, ratios = self._imh_setup(case)
+        # a point outside the support (class with logit -inf: log P - log Q = -inf - -inf) is never
+        # proposed; its ratio is a placeholder
+        fin = [r == r and abs(r) != float("inf") for r in ratios]
         return {"op": "c19.imh", "case": {
-            "ratios": [fs(r) for r in ratios], "f": case["f"], "in_support": [True] * len(pts),
+            "ratios": [fs(r) if ok else "0" for r, ok in zip(ratios, fin)], "f": case["f"], "in_support": fin,
             "N": case["N"], "burn_in": case["burn_in"], "tries": 3, "init": case["init"],
             "draws": case["draws"], "lus": self._lus(case)}}
 
@@ -1170,29 +1239,95 @@ class C19(PropertyCheck):
             return LogisticBernoulli(probs=torch.sigmoid(val), validate_args=va)
         return LogisticBernoulli(probs=val, validate_args=va)
 
+    @staticmethod
+    def _rnd(x, dtn):
+        """python float as the dtype holds it"""
+        import struct
+        x = fam.fl(x)
+        return struct.unpack("f", struct.pack("f", x))[0] if dtn == "float32" else x
+
+    def _lb_observe(self, d, dtn, U, Vv, sample, pexp):
+        """everything the check looks at, for a LogisticBernoulli of any batch shape: U, Vv (shape
+        sample + batch) replace torch.rand / torch.rand_like; pexp: per entry (flat, sample + batch)
+        the probability the distribution is MEANT to have (oracle, float).  -> list of per-entry
+        observations + tensor-level facts."""
+        import torch
+        dt = U.dtype
+        asked = []
+
+        def rand(*a, **k):
+            asked.append(list(a[0]) if a and not isinstance(a[0], int) else list(a))
+            return U.clone()
+        fl = lambda t: [fs(x) for x in t.reshape(-1).tolist()]
+        eps = Fr(EPS[dtn])
+        margin = Fr(1, 1 << 30) if dtn == "float64" else Fr(1, 1 << 10)
+        vflat = [Fr(x) for x in Vv.reshape(-1).tolist()]
+        # the reparametrisation identity (C19_csample_reparam): csample(b, v) is the relaxed sample at
+        # the uniform point u_b(v) of the region of b, u_1 = 1 - p + p v, u_0 = (1 - p)(1 - v).
+        # Evaluated where no clamp is active and u_b(v) is clear of 0 and 1 (conditioning of z(u)).
+        ub = {0: [], 1: []}
+        for pe, v in zip(pexp, vflat):
+            pq = Fr(pe)
+            ok = eps <= pq <= 1 - eps and eps <= v <= 1 - eps
+            for bb, u in ((1, 1 - pq + pq * v), (0, (1 - pq) * (1 - v))):
+                ub[bb].append(u if ok and min(u, 1 - u) >= margin else None)
+        with fam.torch_patched(rand=rand, rand_like=lambda *a, **k: Vv.clone()):
+            z = d.rsample(sample)
+            b = d.threshold(z)
+            cols = {"z": fl(z), "b": fl(b), "logprob": fl(d.log_prob(z)), "tlog": fl(d.tlog_prob(b)),
+                    "clog": fl(d.clog_prob(z, b))}
+            shapes = {"z": list(z.shape), "b": list(b.shape), "tlog": list(d.tlog_prob(b).shape),
+                      "logprob": list(d.log_prob(z).shape), "rand": asked[0] if asked else None}
+            batch = list(d.batch_shape)
+            bc = lambda t: fl(t.expand(z.shape))
+            cols["logit"], cols["p"] = bc(d.logits), bc(d.probs)
+            in_sup = bool(d.support.check(z).all())
+            cc = {}
+            for bb in (0, 1):
+                bt = torch.full_like(z, float(bb))
+                zc = d.csample(bt)
+                shapes[f"zc{bb}"] = list(zc.shape)
+                cc[bb] = {"zc": fl(zc), "thr": fl(d.threshold(zc)), "clog": fl(d.clog_prob(zc, bt)),
+                          "tlog": fl(d.tlog_prob(bt)), "logprob_zc": fl(d.log_prob(zc)),
+                          "clog_other": fl(d.clog_prob(zc, 1 - bt)),
+                          "in_support": [bool(x) for x in d.support.check(zc).reshape(-1).tolist()],
+                          "out_dtype": str(zc.dtype)[6:]}
+        for bb in (0, 1):
+            Ub = torch.tensor([0.5 if u is None else float(u) for u in ub[bb]], dtype=dt).reshape(U.shape)
+            with fam.torch_patched(rand=lambda *a, **k: Ub.clone()):
+                zu = fl(d.rsample(sample))
+            cc[bb]["z_ub"] = [None if u is None else x for u, x in zip(ub[bb], zu)]
+        elems = []
+        for n in range(len(cols["z"])):
+            e = {k: v[n] for k, v in cols.items()}
+            e["in_support"] = in_sup
+            e["out_dtype"] = str(z.dtype)[6:]
+            for bb in (0, 1):
+                e[f"c{bb}"] = {k: (v[n] if isinstance(v, list) else v) for k, v in cc[bb].items()}
+            elems.append(e)
+        return elems, {"shapes": shapes, "batch_shape": batch, "event_shape": list(d.event_shape)}
+
     def _impl_bern(self, case):
         import torch
         d = self._bern_dist(case)
         dt = self._tdtype(case)
+        dtn = case.get("dtype", "float64")
         u = torch.tensor([float(F(case["u"]))], dtype=dt)
         v = torch.tensor([float(F(case["v"]))], dtype=dt)
-        with fam.torch_patched(rand=lambda *a, **k: u.clone(), rand_like=lambda *a, **k: v.clone()):
-            z = d.rsample()
-            b = d.threshold(z)
-            out = {"z": fs(z.item()), "b": fs(b.item()), "logprob": fs(d.log_prob(z).item()),
-                   "tlog": fs(d.tlog_prob(b).item()), "clog": fs(d.clog_prob(z, b).item()),
-                   "logit": fs(d.logits.item()), "p": fs(d.probs.item()),
-                   "in_support": bool(d.support.check(z).all()), "out_dtype": str(z.dtype)[6:]}
-            for bb in (0.0, 1.0):
-                bt = torch.tensor([bb], dtype=dt)
-                zc = d.csample(bt)
-                out[f"c{int(bb)}"] = {
-                    "zc": fs(zc.item()), "thr": fs(d.threshold(zc).item()),
-                    "clog": fs(d.clog_prob(zc, bt).item()), "tlog": fs(d.tlog_prob(bt).item()),
-                    "logprob_zc": fs(d.log_prob(zc).item()),
-                    "clog_other": fs(d.clog_prob(zc, 1 - bt).item()),
-                    "in_support": bool(d.support.check(zc).all())}
-        return out
+        elems, _ = self._lb_observe(d, dtn, u, v, (), [self._lb_expected(case)[0]])
+        return elems[0]
+
+    def _lb_expected(self, case):
+        """(probs, logits) a one-variable `bern` case is meant to have"""
+        dtn = case.get("dtype", "float64")
+        if "value" not in case:
+            lg = self._rnd(case["logit"], dtn)
+            return _sigmoid(lg), lg
+        val = self._rnd(case["value"], dtn)
+        if case["param"] == "sigmoid":
+            import torch
+            val = torch.sigmoid(torch.tensor([val], dtype=self._tdtype(case))).item()
+        return expected_lb("logits" if case["param"] == "logits" else "probs", val, dtn)
 
     def _req_bern(self, case):
         # the parameters and draws go to the model RAW (as the dtype holds them); clamp_probs is part
@@ -1265,6 +1400,16 @@ class C19(PropertyCheck):
         osig = "C19.logistic_bernoulli.float32_exp_overflow"
         if impl["out_dtype"] != dtn:
             fails.append((f"{head}: rsample returns {impl['out_dtype']}", None))
+        # what `probs` and `logits` mean, whichever the distribution was constructed with:
+        # probs = sigmoid(logits) of ONE variable (python oracle from the case's own parameter)
+        pe, le = self._lb_expected(case)
+        params_ok = True
+        for nm, got, want in (("probs", impl["p"], pe), ("logits", impl["logit"], le)):
+            if not pclose(got, want, dtn, nm):
+                params_ok = False
+                fails.append((f"{head}: the distribution's `{nm}` is {float(F(got)) if self._finite(got) else got!r}"
+                              f", but this construction denotes {nm} = {want!r} (probs = sigmoid(logits) "
+                              f"entry by entry)", None))
         if not self._finite(impl["z"]) or not impl["in_support"]:
             fails.append((f"{head}: rsample(u={case['u']}) = {impl['z']} is outside the support (the reals)", None))
         for bb in (0, 1):
@@ -1278,13 +1423,25 @@ class C19(PropertyCheck):
             if model is not None and not self._fclose(c["zc"], model[f"c{bb}"]["zc_spec"], TOL_SPEC[dtn]):
                 # the specific known behaviour: a logits-parametrised distribution whose sigmoid(logits)
                 # lies outside [eps, 1 - eps]; csample then follows the CLAMPED probability (= the model)
-                p_raw = F(impl["p"])
-                known = (case["param"] == "logits" and (p_raw < Fr(EPS[dtn]) or p_raw > 1 - Fr(EPS[dtn]))
+                # (the clamp is active for |logits| > log((1 - eps) / eps): 36.04 / 15.94; `probs` itself
+                # must be what the construction denotes, otherwise it is a different defect)
+                lim = math.log((1 - EPS[dtn]) / EPS[dtn])
+                known = (case["param"] == "logits" and abs(le) > lim and params_ok
                          and self._fclose(c["zc"], model[f"c{bb}"]["zc"], tol))
                 fails.append((f"{head}: csample(b={bb}, v={case['v']}) = {float(F(c['zc']))!r} is not the relaxed "
                               f"sample at the uniform point of the region of b, "
                               f"{float(F(model[f'c{bb}']['zc_spec']))!r} (it is drawn from the distribution with probs "
                               f"clamped to [eps, 1-eps])", SIG_CLAMP if known else None))
+            # the LAW of the conditional sample, on the implementation alone: csample(b, v) must be the
+            # relaxed sample rsample draws at the uniform point u_b(v) of the region of b
+            zu = c.get("z_ub")
+            if zu is not None:
+                want = F(zu) + (Fr(EPS[dtn]) if bb == 1 else 0) if self._finite(zu) else None
+                if want is None or abs(F(c["zc"]) - want) > Fr(TOL_SPEC[dtn]) * max(1, abs(want)):
+                    fails.append((f"{head}: csample(b={bb}, v={case['v']}) = {float(F(c['zc']))!r} but rsample at the "
+                                  f"uniform point u_b(v) of the region of b gives {zu if want is None else float(want)!r}"
+                                  f": the conditional sample does not have the law of the relaxed sample given "
+                                  f"H(z) = b", None))
             why = self._factor_fail(tol, c["logprob_zc"], c["tlog"], c["clog"])
             if why:
                 sig = osig if self._lb_overflow(case, impl, f"c{bb}") and "not finite" in why else None
@@ -1299,6 +1456,126 @@ class C19(PropertyCheck):
                 fails.append((f"{head}: factorisation at z = rsample(u={case['u']}), b = H(z): {why}", sig))
         return fails
 
+    # ---------------------------------------------------------------- relaxed Bernoulli as a tensor
+    @staticmethod
+    def _prod(l):
+        n = 1
+        for x in l:
+            n *= x
+        return n
+
+    def _nd_layout(self, case, event=0):
+        """-> (batch shape after expand, number of parameter entries/rows, entries/rows of the batch,
+        entries/rows of a sample): a tensor of shape sample + batch [+ event] meets, at flat entry/row n,
+        the constructor's entry/row (n % nB) % nb (expand adds LEADING axes)."""
+        shape = case["shape"][: len(case["shape"]) - event]
+        batch = list(case.get("expand") or []) + list(shape)
+        nb, nB = self._prod(shape), self._prod(batch)
+        return batch, nb, nB, nB * self._prod(case.get("sample") or [])
+
+    def _bern_nd_dist(self, case):
+        import torch
+        from pydrobert.torch.distributions import LogisticBernoulli
+        dt = self._tdtype(case)
+        t = torch.tensor([fam.fl(x) for x in case["values"]], dtype=dt).reshape(case["shape"])
+        d = LogisticBernoulli(**{case["param"]: t}, validate_args=True if case.get("validate") else None)
+        if case.get("expand"):
+            d = d.expand(list(case["expand"]) + list(case["shape"]))
+        return d
+
+    def _bern_nd_elem(self, case, n):
+        """the one-variable case entry n of the tensors is an instance of"""
+        _, nb, nB, _ = self._nd_layout(case)
+        return {"kind": "bern", "param": case["param"], "value": case["values"][(n % nB) % nb],
+                "dtype": case["dtype"], "u": case["us"][n], "v": case["vs"][n], "validate": case.get("validate")}
+
+    def _impl_bern_nd(self, case):
+        import torch
+        d = self._bern_nd_dist(case)
+        dt = self._tdtype(case)
+        batch, nb, nB, n = self._nd_layout(case)
+        full = list(case.get("sample") or []) + batch
+        U = torch.tensor([float(F(x)) for x in case["us"]], dtype=dt).reshape(full)
+        Vv = torch.tensor([float(F(x)) for x in case["vs"]], dtype=dt).reshape(full)
+        pexp = [self._lb_expected(self._bern_nd_elem(case, i))[0] for i in range(n)]
+        elems, info = self._lb_observe(d, case["dtype"], U, Vv, tuple(case.get("sample") or []), pexp)
+        fl = lambda t: [fs(x) for x in t.reshape(-1).tolist()]
+        return {"elems": elems, **info, "dprobs": fl(d.probs), "dlogits": fl(d.logits)}
+
+    def _req_bern_nd(self, case):
+        d = self._bern_nd_dist(case)
+        dtn = case["dtype"]
+        fl = lambda t: [fs(x) for x in t.reshape(-1).tolist()]
+        return {"op": "c19.bern_nd", "case": {
+            "ctor": case["param"], "shape": case["shape"], "expand": case.get("expand") or [],
+            "data": [fs(self._rnd(x, dtn)) for x in case["values"]], "eps": fs(EPS[dtn]),
+            "logits": fl(d.logits), "probs": fl(d.probs),
+            "us": [fs(self._rnd(x, dtn)) for x in case["us"]], "vs": [fs(self._rnd(x, dtn)) for x in case["vs"]]}}
+
+    def _cmp_params(self, impl, model, dtn):
+        """the model's construction (`lbParams` / `gParams`, then `expand`) against the object"""
+        out = []
+        mp = model["params"]
+        for nm in ("batch_shape", "event_shape"):
+            if impl[nm] != mp[nm]:
+                out.append(f"{nm}: impl={impl[nm]} model={mp[nm]}")
+        for nm, key in (("probs", "dprobs"), ("logits", "dlogits")):
+            if len(impl[key]) != len(mp[nm]):
+                out.append(f"{nm}: {len(impl[key])} entries, model {len(mp[nm])}")
+                continue
+            for i, (a, b) in enumerate(zip(impl[key], mp[nm])):
+                if not pclose(a, fam.fl(b), dtn, nm):
+                    out.append(f"{nm}[{i}]: impl={a} model={b}")
+                    break
+        return out
+
+    def _cmp_bern_nd(self, case, impl, model):
+        dtn = case["dtype"]
+        out = self._cmp_params(impl, model, dtn)
+        if len(impl["elems"]) != len(model["elems"]):
+            return out + [f"{len(impl['elems'])} entries, model {len(model['elems'])}"]
+        for n, (a, b) in enumerate(zip(impl["elems"], model["elems"])):
+            out += [f"entry {n}: {m}" for m in self._cmp_bern(self._bern_nd_elem(case, n), a, b)]
+        # the tensor-level functions of the model (parameter picked by `paramAt`)
+        tol = TOL_D[dtn]
+        for key, got in (("zT", [e["z"] for e in impl["elems"]]), ("zc1T", [e["c1"]["zc"] for e in impl["elems"]]),
+                         ("tlog1T", [e["c1"]["tlog"] for e in impl["elems"]])):
+            bad = [i for i, (a, b) in enumerate(zip(got, model[key])) if not self._fclose(a, b, tol)]
+            if bad or len(got) != len(model[key]):
+                out.append(f"{key}: entries {bad[:4]} differ (impl {got[:4]}.. model {model[key][:4]}..)")
+        return out[:6]
+
+    def _pred_shapes(self, head, case, impl, event):
+        """batch / event shape and the shapes of what the methods return"""
+        fails = []
+        batch, _, _, _ = self._nd_layout(case, len(event))
+        full = list(case.get("sample") or []) + batch
+        if impl["batch_shape"] != batch or impl["event_shape"] != event:
+            fails.append((f"{head}: batch_shape {impl['batch_shape']}, event_shape {impl['event_shape']}; expected "
+                          f"{batch}, {event}", None))
+        want = {"z": full + event, "b": full + event, "tlog": full, "logprob": full, "rand": full + event,
+                "zc0": full + event, "zc1": full + event, "zc": full + event}
+        for k, v in impl["shapes"].items():
+            if v != want[k]:
+                fails.append((f"{head}: shape of {k} is {v}, expected {want[k]} (sample_shape + batch_shape"
+                              f"{' + event_shape' if len(want[k]) > len(full) else ''})", None))
+        return fails
+
+    def _pred_bern_nd(self, case, impl, model):
+        head = (f"LogisticBernoulli({case['param']}= tensor of shape {case['shape']}"
+                f"{', expand ' + str(case['expand']) if case.get('expand') else ''}, {case['dtype']})")
+        fails = self._pred_shapes(head, case, impl, [])
+        seen = set()
+        for n, e in enumerate(impl["elems"]):
+            m = model["elems"][n] if model is not None and n < len(model.get("elems", [])) else None
+            for what, sig in self._pred_bern(self._bern_nd_elem(case, n), e, m):
+                key = (what.split(":", 2)[1][:40] if what.count(":") >= 2 else what[:40], sig)
+                if key in seen:
+                    continue          # one report per kind of failure
+                seen.add(key)
+                fails.append((f"entry {n} of {head}: {what}", sig))
+        return fails
+
     # ---------------------------------------------------------------- relaxed categorical
     def _gumbel_dist(self, case):
         import torch
@@ -1306,36 +1583,65 @@ class C19(PropertyCheck):
         dt = self._tdtype(case)
         if "theta" not in case:          # cases written before `probs` was exercised
             return GumbelOneHotCategorical(logits=torch.tensor([float(F(x)) for x in case["logits"]], dtype=dt))
-        th = torch.tensor([float(F(x)) for x in case["theta"]], dtype=dt)
+        th = torch.tensor([fam.fl(x) for x in case["theta"]], dtype=dt)
         return GumbelOneHotCategorical(**{case["param"]: th}, validate_args=True if case.get("validate") else None)
 
     @staticmethod
     def _gV(case):
         return len(case["theta"] if "theta" in case else case["logits"])
 
+    def _g_observe(self, d, dtn, U, Vv, sample, ks):
+        """everything the check looks at, for a GumbelOneHotCategorical of any batch shape: U, Vv of
+        shape sample + batch + [V]; ks: conditioning class per row.  -> per-row observations + shapes"""
+        import torch
+        dt = U.dtype
+        V = U.shape[-1]
+        rows = U.numel() // V
+        full = list(U.shape[:-1])
+        asked = []
+
+        def rand(*a, **k):
+            asked.append(list(a[0]) if a and not isinstance(a[0], int) else list(a))
+            return U.clone()
+        fr = lambda t: [[fs(x) for x in r] for r in t.reshape(rows, V).tolist()]      # per row: vector
+        fl = lambda t: [fs(x) for x in t.reshape(-1).tolist()]                        # per row: number
+        bk = torch.nn.functional.one_hot(torch.tensor(ks), V).to(dt).reshape(U.shape)
+        with fam.torch_patched(rand=rand, rand_like=lambda *a, **k: Vv.clone()):
+            z = d.rsample(sample)
+            b = d.threshold(z)
+            zc = d.csample(bk)
+            other = torch.roll(bk, 1, -1)
+            ex = lambda t: t.expand(full + [V])
+            cols = {"z": fr(z), "b": fr(b), "logprob": fl(d.log_prob(z)), "tlog": fl(d.tlog_prob(b)),
+                    "clog": fl(d.clog_prob(z, b)), "zc": fr(zc), "thr_zc": fr(d.threshold(zc)),
+                    "clog_zc": fl(d.clog_prob(zc, bk)), "tlog_k": fl(d.tlog_prob(bk)),
+                    "logprob_zc": fl(d.log_prob(zc)), "clog_other": fl(d.clog_prob(zc, other)),
+                    "psum": fl(ex(d.logits).to(torch.float64).exp().sum(-1)),
+                    "probs_sum": fl(ex(d.probs).to(torch.float64).sum(-1)),
+                    "in_support": [bool(x) for x in (d.support.check(z) & d.support.check(zc)).reshape(-1).tolist()],
+                    "dlogits": fr(ex(d.logits)), "dprobs": fr(ex(d.probs))}
+            # the threshold probabilities over the whole one-hot support
+            tl = [d.tlog_prob(torch.nn.functional.one_hot(torch.tensor(j), V).to(dt).expand(full + [V]))
+                  for j in range(V)]
+            cols["tlog_all"] = [[fs(x) for x in r] for r in torch.stack([t.reshape(-1) for t in tl], -1).tolist()]
+            shapes = {"z": list(z.shape), "b": list(b.shape), "tlog": list(d.tlog_prob(b).shape),
+                      "logprob": list(d.log_prob(z).shape), "zc": list(zc.shape),
+                      "rand": asked[0] if asked else None}
+        elems = []
+        for n in range(rows):
+            e = {k: v[n] for k, v in cols.items()}
+            e["out_dtype"] = str(zc.dtype)[6:]
+            elems.append(e)
+        return elems, {"shapes": shapes, "batch_shape": list(d.batch_shape), "event_shape": list(d.event_shape)}
+
     def _impl_gumbel(self, case):
         import torch
         d = self._gumbel_dist(case)
         dt = self._tdtype(case)
-        V = self._gV(case)
         u = torch.tensor([float(F(x)) for x in case["us"]], dtype=dt)
         v = torch.tensor([float(F(x)) for x in case["vs"]], dtype=dt)
-        bk = torch.nn.functional.one_hot(torch.tensor(case["k"]), V).to(dt)
-        fl = lambda t: [fs(x) for x in t.tolist()]
-        with fam.torch_patched(rand=lambda *a, **k: u.clone(), rand_like=lambda *a, **k: v.clone()):
-            z = d.rsample()
-            b = d.threshold(z)
-            zc = d.csample(bk)
-            other = torch.roll(bk, 1)
-            return {"z": fl(z), "b": fl(b), "logprob": fs(d.log_prob(z).item()),
-                    "tlog": fs(d.tlog_prob(b).item()), "clog": fs(d.clog_prob(z, b).item()),
-                    "zc": fl(zc), "thr_zc": fl(d.threshold(zc)), "clog_zc": fs(d.clog_prob(zc, bk).item()),
-                    "tlog_k": fs(d.tlog_prob(bk).item()), "logprob_zc": fs(d.log_prob(zc).item()),
-                    "clog_other": fs(d.clog_prob(zc, other).item()),
-                    "psum": fs(d.logits.to(torch.float64).exp().sum().item()),
-                    "probs_sum": fs(d.probs.to(torch.float64).sum().item()),
-                    "in_support": bool(d.support.check(z).all() and d.support.check(zc).all()),
-                    "out_dtype": str(zc.dtype)[6:]}
+        elems, _ = self._g_observe(d, case.get("dtype", "float64"), u, v, (), [case["k"]])
+        return elems[0]
 
     def _req_gumbel(self, case):
         import torch
@@ -1382,49 +1688,107 @@ class C19(PropertyCheck):
         for k in ("tlog_k", "logprob_zc") + (() if absorbed else ("clog_zc",)):
             if not self._fclose(impl[k], model[k], tol):
                 out.append(f"{k}: impl={impl[k]} model={model[k]}")
+        if "tlog_all" in impl and "tlog_all" in model and not all(
+                self._fclose(a, b, tol) for a, b in zip(impl["tlog_all"], model["tlog_all"])):
+            out.append(f"tlog_prob over the one-hot support: impl={impl['tlog_all']} model={model['tlog_all']}")
         return out[:6]
+
+    def _g_expected(self, case):
+        """(probs, logits) the row of a `gumbel` case is meant to have"""
+        dtn = case.get("dtype", "float64")
+        par = case.get("param", "logits")
+        return expected_g(par, [self._rnd(x, dtn) for x in case.get("theta", case.get("logits"))], dtn)
 
     def _pred_gumbel(self, case, impl, model):
         fails = []
         dtn = case.get("dtype", "float64")
         tol = TOL_G[dtn]
         V = self._gV(case)
-        head = (f"GumbelOneHotCategorical({case.get('param', 'logits')}="
-                f"{case.get('theta', case.get('logits'))}, {dtn})")
-        bk = [fs(1 if j == case["k"] else 0) for j in range(V)]
+        par = case.get("param", "logits")
+        theta = case.get("theta", case.get("logits"))
+        head = f"GumbelOneHotCategorical({par}={theta}, {dtn})"
+        k = case["k"]
+        bk = [fs(1 if j == k else 0) for j in range(V)]
         asig = "C19.gumbel.csample_guard_absorbed" if self._g_absorbed(case, impl) else None
+        # classes that are impossible because their logit is -inf (zero probability handed over through
+        # `logits=`): the relaxed variable of such a class is -inf almost surely, so the relaxed
+        # distribution has no density; what remains promised there: the threshold probabilities
+        # (tlog_prob, exactly -inf for the impossible classes, summing to one), finite conditional samples
+        # that threshold to b, and finite estimator values
+        zero = [par == "logits" and fam.is_ninf(x) for x in theta]
         if impl["out_dtype"] != dtn:
             fails.append((f"{head}: csample returns {impl['out_dtype']}", None))
-        if not all(self._finite(x) for x in impl["z"] + impl["zc"]) or not impl["in_support"]:
-            fails.append((f"{head}: relaxed sample outside the support (real vectors): z = {impl['z']}, "
-                          f"zcond = {impl['zc']}", None))
+        # what `probs` and `logits` mean, whichever was given: softmax(logits) = probs / sum(probs) along
+        # the LAST axis (python oracle from the case's own parameter row)
+        params_ok = True
+        if "dprobs" in impl:
+            pe, le = self._g_expected(case)
+            for nm, got, want in (("probs", impl["dprobs"], pe), ("logits", impl["dlogits"], le)):
+                if not all(pclose(a, b, dtn, nm) for a, b in zip(got, want)):
+                    params_ok = False
+                    fails.append((f"{head}: the distribution's `{nm}` is "
+                                  f"{[float(F(x)) if self._finite(x) else x for x in got]}, but this construction "
+                                  f"denotes {nm} = {want} (softmax(logits) = probs / sum(probs) along the last "
+                                  f"axis)", None))
+        z_ok = all((x == "-inf") if zr else self._finite(x) for x, zr in zip(impl["z"], zero))
+        if not z_ok or not all(self._finite(x) for x in impl["zc"]) or not impl["in_support"]:
+            fails.append((f"{head}: relaxed sample outside the support (real vectors; -inf exactly for a class "
+                          f"whose logit is -inf): z = {impl['z']}, zcond = {impl['zc']}", None))
             return fails
         if abs(float(F(impl["psum"])) - 1) > 1e-5 or abs(float(F(impl["probs_sum"])) - 1) > 1e-5:
             fails.append((f"{head}: probabilities sum to {float(F(impl['probs_sum']))}, exp(logits) to "
                           f"{float(F(impl['psum']))}", None))
+        if "tlog_all" in impl:
+            ta = impl["tlog_all"]
+            bad = [j for j in range(V) if ta[j] in ("nan", "inf") or (ta[j] == "-inf") != zero[j]]
+            if bad:
+                fails.append((f"{head}: tlog_prob over the one-hot support is {ta}: classes {bad} must have a "
+                              f"finite log-probability (-inf exactly for a class whose logit is -inf)", None))
+            else:
+                tot = sum(math.exp(float(F(x))) for x in ta if x != "-inf")
+                if abs(tot - 1) > (1e-5 if dtn == "float32" else 1e-9) * V:
+                    fails.append((f"{head}: the threshold probabilities exp(tlog_prob(e_j)) over the one-hot "
+                                  f"support sum to {tot!r}", None))
         if impl["thr_zc"] != bk:
             fails.append((f"{head}: threshold(csample(b)) = {impl['thr_zc']} != b = {bk} "
                           f"(zcond = {[float(F(x)) for x in impl['zc']]}, v = {case['vs']})", asig))
         if model is not None and asig is None and not all(
                 self._fclose(a, b, TOL_SPEC[dtn]) for a, b in zip(impl["zc"], model["zc_spec"])):
-            raw = [F(x) for x in model_probs(self, case)]
-            known = (case.get("param", "logits") == "logits" and any(x < Fr(EPS[dtn]) for x in raw)
+            # known only where a class log-probability (python oracle) really lies below log eps and the
+            # distribution's own `probs` are what the construction denotes
+            _, le = self._g_expected(case)
+            known = (par == "logits" and any(x < math.log(EPS[dtn]) for x in le) and params_ok
                      and all(self._fclose(a, b, tol) for a, b in zip(impl["zc"], model["zc"])))
-            fails.append((f"{head}: csample(b = e_{case['k']}, v = {case['vs']}) = "
+            fails.append((f"{head}: csample(b = e_{k}, v = {case['vs']}) = "
                           f"{[float(F(x)) for x in impl['zc']]} is not the conditional relaxed sample of this "
                           f"distribution, {[float(F(x)) if self._finite(x) else x for x in model['zc_spec']]} "
                           f"(class probabilities clamped to [eps, 1-eps])",
                           SIG_CLAMP if known else None))
-        why = self._factor_fail(tol, impl["logprob_zc"], impl["tlog_k"], impl["clog_zc"])
-        if why:
-            fails.append((f"{head}: factorisation at zcond = csample(b = e_{case['k']}): {why}", asig))
-        why = self._factor_fail(tol, impl["logprob"], impl["tlog"], impl["clog"])
-        if why:
-            fails.append((f"{head}: factorisation at z = rsample(u), b = H(z): {why}", None))
+        if any(zero):
+            # no density: at zcond (finite in the impossible coordinates only because csample clamps the
+            # probabilities) the factorisation reads 0 = P(b) * 0 in the extended reals
+            if zero[k]:
+                if impl["tlog_k"] != "-inf":
+                    fails.append((f"{head}: tlog_prob of the impossible class e_{k} is {impl['tlog_k']}", None))
+            elif not (self._finite(impl["tlog_k"]) and impl["logprob_zc"] == "-inf" and impl["clog_zc"] == "-inf"):
+                fails.append((f"{head}: at zcond = csample(b = e_{k}) (finite in a coordinate of probability "
+                              f"zero): log_prob = {impl['logprob_zc']}, tlog_prob = {impl['tlog_k']}, clog_prob = "
+                              f"{impl['clog_zc']}; expected -inf = finite + -inf", None))
+            if not self._finite(impl["tlog"]):
+                fails.append((f"{head}: tlog_prob(H(z)) = {impl['tlog']} for a drawn class", None))
+        else:
+            why = self._factor_fail(tol, impl["logprob_zc"], impl["tlog_k"], impl["clog_zc"])
+            if why:
+                fails.append((f"{head}: factorisation at zcond = csample(b = e_{k}): {why}", asig))
+            why = self._factor_fail(tol, impl["logprob"], impl["tlog"], impl["clog"])
+            if why:
+                fails.append((f"{head}: factorisation at z = rsample(u), b = H(z): {why}", None))
         if impl["clog_other"] != "-inf":
             fails.append((f"{head}: clog_prob(zcond, other) = {impl['clog_other']} is not -inf", asig))
         if sum(F(x) for x in impl["b"]) != 1 or any(F(x) not in (0, 1) for x in impl["b"]):
             fails.append((f"{head}: threshold is not one-hot", None))
+        elif any(zr and F(x) == 1 for x, zr in zip(impl["b"], zero)):
+            fails.append((f"{head}: threshold(rsample) = {impl['b']} selects a class of probability zero", None))
         return fails
 
     # ---------------------------------------------------------------- relaxation-based estimators
